@@ -1261,6 +1261,43 @@ def expand_clipped_uses_of_transformed_targets(root):
     return r if hit else None
 
 
+def simulate_clip_moved_onto_target(root):
+    """Bug simulation of the same mechanism in the source: every <use clip-path=...> whose target has
+    its own transform becomes a group (use transform, translate(x,y), the use's other attributes)
+    around a copy of the target that carries the clip-path itself - so the clip is placed in the
+    target's transformed coordinate system, which is what the pinned code does.  Returns None if
+    there is no such use or a target has a clip-path of its own."""
+    r = root.copy()
+    ids = {n.attrs["id"]: n for n in r.iter() if n.kind == "el" and "id" in n.attrs}
+    hit = False
+    bad = False
+
+    def rec(n):
+        nonlocal hit, bad
+        for i, c in enumerate(n.children):
+            if c.kind == "el" and c.tag == "use" and "clip-path" in c.attrs:
+                t = ids.get(c.attrs.get("xlink:href", "#")[1:])
+                if t is not None and "transform" in t.attrs:
+                    if "clip-path" in t.attrs or "clip-path" in (t.attrs.get("style") or ""):
+                        bad = True
+                        continue
+                    cp = t.copy()
+                    for x in cp.iter():
+                        x.attrs.pop("id", None)
+                    cp.attrs["clip-path"] = c.attrs["clip-path"]
+                    tf = (c.attrs.get("transform", "") + f" translate({c.attrs.get('x', '0')} {c.attrs.get('y', '0')})").strip()
+                    a = {k: v for k, v in c.attrs.items() if k not in ("x", "y", "width", "height", "transform", "xlink:href", "clip-path")}
+                    a["transform"] = tf
+                    n.children[i] = Node("g", a, [cp])
+                    hit = True
+                    continue
+            if c.kind == "el":
+                rec(c)
+
+    rec(r)
+    return r if hit and not bad else None
+
+
 def from_xml(text):
     """Parse an XML text produced by to_xml back into a Node tree (comments / PIs kept)."""
     import xml.etree.ElementTree as ET
